@@ -117,6 +117,7 @@ def gen_ro_sep(rng, cfg):
         s_bound.append(add({'op': 'st', 'm': 'm', 'ids': ['bx']}, [steps[-1]['sid']], role='bound'))
 
     expect = {'x': [], 'obj_const': 0.0}
+    shared = []
     # optional binary with a user bound that excludes one value (objective rewards ignoring the bound)
     objterms = list(xs)
     ints = False
@@ -162,7 +163,15 @@ def gen_ro_sep(rng, cfg):
         blocks = gen.gen_set(rng, zs, fams) if own else default_set
         expect['x'].append(b - ref.support(blocks, a))
         a_used = {zn: v for zn, v in a.items() if any(v)}
-        s_c = add({'op': 'cons', 'id': 'c%d' % k, 'e': _lin_forms(rng, xs[k], a_used, b)}, cdeps, role='cons')
+        if len(a_used) == 1 and rng.random() < 0.3:
+            # the random part is ONE shared expression object that may meanwhile be used inside a set or a piecewise term
+            zn0 = sorted(a_used)[0]
+            s_e = add({'op': 'expr', 'id': 'ze%d' % k, 'e': ['@', ['c', a_used[zn0]], ['v', zn0]]}, [s_z[zn0]], role='expr')
+            shared.append(('ze%d' % k, zn0))
+            ce = ['<=', ['+', xs[k], ['v', 'ze%d' % k]], ['c', b]]
+            s_c = add({'op': 'cons', 'id': 'c%d' % k, 'e': ce}, set(cdeps) | {s_e}, role='cons')
+        else:
+            s_c = add({'op': 'cons', 'id': 'c%d' % k, 'e': _lin_forms(rng, xs[k], a_used, b)}, cdeps, role='cons')
         last = s_c
         if own:
             kw = {} if default_set is not None else {'anchor': s_c}
@@ -185,7 +194,7 @@ def gen_ro_sep(rng, cfg):
             role='bound')
     xnames = ['x%d' % k for k in range(K)] if scalar_x else ['x']
     return {'family': 'ro-sep', 'model': 'm', 'cone': cone, 'ints': ints, 'zs': zs, 'steps': steps,
-            'expect': expect, 'xnames': xnames, 'pool': solver_pool(cone, ints)}
+            'expect': expect, 'xnames': xnames, 'pool': solver_pool(cone, ints), 'shared_z': shared}
 
 
 def gen_probset(rng, S):
@@ -688,6 +697,20 @@ def gen_noise(rng, decl, declared, n):
         e = rng.choice(sh)
         return [{'op': 'expr', 'id': 'junk%d' % n, 'env': 1, 'wrap': 1,
                  'e': rng.choice([['E', ['maxof', ['v', e], ['c', -100.0]]], ['E', ['minof', ['v', e], ['c', 100.0]]]])}]
+    shz = [(e, zn) for e, zn in decl.get('shared_z', []) if e in declared]
+    xs0 = [x for x in decl['xnames'] if x in declared]
+    if shz and xs0 and rng.random() < 0.5:
+        e, zn = rng.choice(shz)
+        xe = ['v', xs0[0]] if xs0[0] != 'x' else ['i', ['v', 'x'], 0]
+        zsz = {z_: k_ for z_, k_ in decl['zs'].items() if z_ in declared}
+        blocks = gen.gen_set(rng, zsz, ['box', 'n1', 'ninf'])
+        if rng.random() < 0.5:
+            # the shared expression inside a set (as one more row of a throw-away uncertainty set)
+            return [{'op': 'cons', 'id': 'noise%d' % n, 'e': ['<=', ['+', xe, ['v', e]], ['c', 7.0]], 'env': 1, 'wrap': 1},
+                    {'op': 'forall', 'id': 'noise%d' % n, 'env': 1, 'blocks': blocks,
+                     'set': ref.set_constraints(blocks, zsz) + [['<=', ['v', e], ['c', 100.0]]]}]
+        # ... or inside a throw-away piecewise term
+        return [{'op': 'expr', 'id': 'junk%d' % n, 'env': 1, 'wrap': 1, 'e': ['maxof', ['+', xe, ['v', e]], ['c', 0.0]]}]
     zs = {zn: k for zn, k in decl['zs'].items() if zn in declared}
     xs = [x for x in decl['xnames'] if x in declared]
     if not zs or not xs:
